@@ -16,7 +16,8 @@ RULE = (
     "extractor in get_extractors(s). (b) differential: generated documents x extractor lists (full list, random "
     "sub-lists seeded with the extractors relevant to the text, sub-lists with a custom extractor); oracle: "
     "AhocorasickTokenizer(extractors=L).tokenize(t) equals Tokenizer(extractors=L).tokenize(t) token by token "
-    "(type, offsets, text, groups, editions in order, short) and index by index; plus an enumerated family of long texts "
+    "(type, offsets, text, groups, editions in order, short) and index by index; plus one differential per string derived from the pattern of one extractor per template shape (~9,000 strings, in a "
+    "digit-free context), plus an enumerated family of long texts "
     "(1K ... 128K characters of filler with and without blanks, then a token straddling a power-of-two / round offset). Non-trivial: (a) a string that "
     "matches its pattern; (b) the filter skipped >= 1 extractor that has strings and kept >= 1; distinct = distinct case"
 )
@@ -267,11 +268,30 @@ def _long_items(tier):
     if tier != "quick":
         ats += [3 * 65536, 2 ** 18, 2 ** 20]
     out = []
-    for unit in ["x\n", "word ", "ab\tcd\n", "\u00e9\n", "\u0130x\n"]:
+    for unit in ["x\n", "word ", "ab\tcd\n", "\u00e9\n", "\u0130x\n", "xy\r\n", "x\u2028"]:
         for tok in ["supra", "Id.", "See", "ibid.", "1 U.S. 1", "In re", "\u00a7 5"]:
             for at in ats:
                 for j in sorted({0, 1, 2, len(tok) - 1, len(tok)}):
                     out.append({"kind": "difflong", "unit": unit, "tok": tok, "at": at, "j": j, "keep": 10, "salt": 0})
+    return out
+
+
+def _shape_items(tier):
+    """One differential per string derived from the pattern of one extractor per template shape (all alternatives,
+    optional parts, repeatable parts once more than the minimum), in a digit-free, citation-free context; the
+    extractor list is the representative extractor plus everything the harness index relates to the text."""
+    out = []
+    seen = set()
+    for i, e in regexgen.shape_representatives(G["EXTRACTORS"]):
+        for cand in regexgen.alternatives(e.regex, e.flags, limit=1500):
+            m = e.compiled_regex.search(cand)
+            if not m:
+                continue
+            core = m.group(1)
+            if core in seen or not core.strip():
+                continue
+            seen.add(core)
+            out.append({"kind": "diff", "text": f"Compare {core}; and so on", "idx": [i], "salt": 0, "keep": 10, "custom": 0})
     return out
 
 
@@ -294,5 +314,6 @@ def phases(tier):
         Phase("inclusion", "enum", items=items, exhaustive=False, chunk=60),
         Phase("diff-sublists", "gen", strategy=_sub_cases, n=n_sub),
         Phase("diff-full", "gen", strategy=_full_cases, n=n_full),
+        Phase("diff-pattern-shapes", "enum", items=lambda: _shape_items(tier), exhaustive=True, distinct=True, chunk=40),
         Phase("diff-long-texts", "enum", items=lambda: _long_items(tier), exhaustive=True, distinct=True, chunk=8),
     ]
